@@ -52,6 +52,36 @@ func c03Styles(r interface {
 	}
 }
 
+type directiveCounter struct{ n int }
+
+func (v *directiveCounter) Enter(n js.INode) js.IVisitor {
+	if _, ok := n.(*js.DirectivePrologueStmt); ok {
+		v.n++
+	}
+	return v
+}
+func (v *directiveCounter) Exit(n js.INode) {}
+
+func countDirectives(ast *js.AST) int {
+	v := &directiveCounter{}
+	js.Walk(v, ast)
+	return v.n
+}
+
+func countKind(n *gen.JSNode, kind string) int {
+	if n == nil {
+		return 0
+	}
+	c := 0
+	if n.K == kind {
+		c = 1
+	}
+	for _, k := range n.Kids {
+		c += countKind(k, kind)
+	}
+	return c
+}
+
 func hasKind(n *gen.JSNode, kinds ...string) bool {
 	if n == nil {
 		return false
@@ -116,6 +146,12 @@ func c03Spell(t *fw.T) {
 		refStr[op] = s
 		refAST[op] = ast
 		t.Count("parses", 1)
+		// "use strict" is a directive exactly at the start of a function body or of the program
+		if nd, want := countDirectives(ast), countKind(prog.Root, "directive"); nd != want {
+			t.Desc(&c03Case{Kind: "spell", Src: []byte(ref), Style: "reference", Opts: optName(op)})
+			t.Failf("the tree has %d DirectivePrologueStmt nodes, the program has %d directives (a \"use strict\" statement behind another statement is an expression statement)", nd, want)
+			return
+		}
 	}
 	// Inline only changes what is allowed at the top level
 	if s, ok := refStr[js.Options{Inline: true}]; ok && s != refStr[js.Options{}] {
@@ -374,6 +410,25 @@ var c03Probes = []struct {
 	{"asi-after-async-arrow-and-yield", "let u=async(a)=>{}\n/r/;function*g(){x=yield\n(1)}", "let u=async(a)=>{};/r/;function*g(){x=yield;(1)}"},
 	{"no-asi-when-the-line-continues", "x=()=>{}\n,y=2;z=()=>a\n(1);f=function(){}\n(2)", "x=()=>{},y=2;z=()=>a(1);f=function(){}(2)"},
 	{"for-init-async-function-with-in", "for(async function(){a in b};;);", "for((async function(){(a in b);});;);"},
+}
+
+// flat repetition: the parser's nesting counters must return to zero after every construct (a counter that is not
+// decremented turns the 1000th statement or expression into "too many nested …")
+func init() {
+	rep := func(name, unit string, n int) {
+		s := strings.Repeat(unit, n)
+		c03Probes = append(c03Probes, struct{ name, a, b string }{name, s, s})
+	}
+	rep("flat-3000-expression-statements", "a;", 3000)
+	rep("flat-3000-blocks", "{}", 3000)
+	rep("flat-2000-if-statements", "if(a)b;else c;", 2000)
+	rep("flat-2000-function-declarations", "function f(a=1){return a}", 2000)
+	rep("flat-2000-arrow-and-object-statements", "x=(a,b)=>({k:[a,b]});", 2000)
+	rep("flat-2000-class-expressions", "x=class{m(){}static{}#p=1};", 2000)
+	rep("flat-2000-loops-and-try", "for(;;){break}while(a){}do{}while(a);try{}catch{}finally{}", 2000)
+	rep("flat-2000-templates-and-calls", "f(`a${b}c`,new g(1)?.h[2]);", 2000)
+	c03Probes = append(c03Probes, struct{ name, a, b string }{"flat-3000-array-elements", "x=[" + strings.Repeat("(a),", 3000) + "]", "x=[" + strings.Repeat("a,", 3000) + "]"})
+	c03Probes = append(c03Probes, struct{ name, a, b string }{"flat-3000-arguments", "f(" + strings.Repeat("(a),", 2999) + "a)", "f(" + strings.Repeat("a,", 2999) + "a)"})
 }
 
 func c03Probe(t *fw.T) {
